@@ -10,8 +10,8 @@
 (***************************************************************************)
 EXTENDS TraceIO, CharCount
 
-VARIABLES l, bad, cell, info, acc, failW, cutW, totW, nleaf, done, stats, prevG
-vars == <<l, bad, cell, info, acc, failW, cutW, totW, nleaf, done, stats, prevG>>
+VARIABLES l, bad, cell, info, acc, failW, cutW, totW, nleaf, done, stats, prevG, lineReal, linePred
+vars == <<l, bad, cell, info, acc, failW, cutW, totW, nleaf, done, stats, prevG, lineReal, linePred>>
 
 NoCell == [op |-> "none"]
 Tol == 4      \* float32 additions in the formula
@@ -287,12 +287,20 @@ EndWhys(c) ==
       THEN "P:C06:entropy-below-the-true-value-for-a-uniform-recipe" ELSE "ok"
   >>
 
+\* a complete line: every value of ONE draw with all other draws fixed.  WordGen predicts which of these index paths give
+\* different passwords; if the real code produces fewer different passwords, some alternative of that draw can never be
+\* realised (e.g. a capital position that is never capitalised, a word index that is never reached)
+LineWhys(c) ==
+  IF c.op # "wcell" \/ c.lineOn # 1 THEN <<"ok">>
+  ELSE <<IF Cardinality(lineReal) < Cardinality(linePred)
+           THEN "P:C04:two-values-of-one-draw-give-the-same-password-where-uniform-choice-requires-different-ones" ELSE "ok">>
+
 RECURSIVE BadOf(_,_,_)
 BadOf(line, ws, i) == IF i > Len(ws) THEN <<>>
                       ELSE (IF ws[i] = "ok" THEN <<>> ELSE <<Bad(line, ws[i])>>) \o BadOf(line, ws, i+1)
 
 Init == /\ l = 1 /\ bad = <<>> /\ cell = NoCell /\ info = NoCell /\ acc = <<>> /\ failW = 0 /\ cutW = 0 /\ totW = 0 /\ nleaf = 0 /\ done = FALSE
-        /\ stats = [cells |-> 0, leaves |-> 0, decided |-> 0] /\ prevG = NoCell
+        /\ stats = [cells |-> 0, leaves |-> 0, decided |-> 0] /\ prevG = NoCell /\ lineReal = {} /\ linePred = {}
 
 Key(res) == [i \in DOMAIN res.toks |-> <<res.toks[i].t, res.toks[i].v>>]
 
@@ -306,6 +314,7 @@ Step ==
             IN /\ cell' = e /\ info' = inf /\ acc' = <<>> /\ failW' = 0 /\ cutW' = 0 /\ totW' = 0 /\ nleaf' = 0
                /\ bad' = bad \o BadOf(l, CellWhys(e, inf), 1) \o BadOf(l, GroupWhys(e), 1)
                /\ prevG' = IF e.grp > 0 THEN e ELSE prevG
+               /\ lineReal' = {} /\ linePred' = {}
                /\ stats' = [stats EXCEPT !.cells = @ + 1]
        [] e.op = "wleaf" ->
             LET w == IF Decidable(cell) THEN ToInt(e.w) ELSE 0
@@ -318,18 +327,24 @@ Step ==
                /\ cutW' = IF e.res.kind = "cut" THEN cutW + w ELSE cutW
                /\ totW' = totW + w /\ nleaf' = nleaf + 1
                /\ stats' = [stats EXCEPT !.leaves = @ + 1]
+               /\ IF cell.lineOn = 1 /\ e.res.kind = "ok"
+                  THEN LET m == Machine(cell, e) IN
+                       /\ lineReal' = lineReal \cup {s}
+                       /\ linePred' = linePred \cup {IF m.ok THEN Key([toks |-> m.toks]) ELSE <<"unpredictable", nleaf>>}
+                  ELSE UNCHANGED <<lineReal, linePred>>
                /\ UNCHANGED <<cell, info, prevG>>
        [] e.op = "wcellend" ->
-            /\ bad' = bad \o BadOf(l, EndWhys(cell), 1)
+            /\ bad' = bad \o BadOf(l, EndWhys(cell), 1) \o BadOf(l, LineWhys(cell), 1)
             /\ stats' = [stats EXCEPT !.decided = @ + (IF Decidable(cell) /\ DOMAIN acc # {} THEN 1 ELSE 0)]
             /\ cell' = NoCell /\ info' = NoCell /\ acc' = <<>> /\ failW' = 0 /\ cutW' = 0 /\ totW' = 0 /\ nleaf' = 0 /\ UNCHANGED prevG
+            /\ lineReal' = {} /\ linePred' = {}
        [] OTHER -> /\ bad' = bad \o <<Bad(l, "H:unknown-op")>>
-                   /\ UNCHANGED <<cell, info, acc, failW, cutW, totW, nleaf, stats, prevG>>
+                   /\ UNCHANGED <<cell, info, acc, failW, cutW, totW, nleaf, stats, prevG, lineReal, linePred>>
   /\ l' = l + 1 /\ UNCHANGED done
 
 Finish == /\ l = NLines + 1 /\ ~done
           /\ WriteResult(bad, stats)
-          /\ done' = TRUE /\ UNCHANGED <<l, bad, cell, info, acc, failW, cutW, totW, nleaf, stats, prevG>>
+          /\ done' = TRUE /\ UNCHANGED <<l, bad, cell, info, acc, failW, cutW, totW, nleaf, stats, prevG, lineReal, linePred>>
 
 Next == Step \/ Finish
 Spec == Init /\ [][Next]_vars
